@@ -80,7 +80,7 @@ static Kind kind_of_tag(const std::string & t)
   }
 const char * kind_name(Kind k)
   {
-  static const char * n[] = { "none", "fixed", "int8", "int16", "int32", "int64", "uint8", "uint16", "uint32", "uint64", "long-long", "unsigned-long-long", "float-bits", "double-bits", "shift-count", "int32-angle", "index<=360", "index<=255", "count<=64", "int128-encoded" };
+  static const char * n[] = { "none", "fixed", "int8", "int16", "int32", "int64", "uint8", "uint16", "uint32", "uint64", "long-long", "unsigned-long-long", "float-bits", "double-bits", "shift-count", "int32-angle", "index<=360", "index<=255", "count<=64", "int128-encoded", "count<=63" };
   return n[k];
   }
 bool entry_domain(const std::string & n, Domain & d)
@@ -93,7 +93,10 @@ bool entry_domain(const std::string & n, Domain & d)
   if(none.count(n)) { d = { K_NONE, K_NONE }; return true; }
   if(unary_fix.count(n)) { d = { K_FIX, K_NONE }; return true; }
   if(binary_fix.count(n)) { d = { K_FIX, K_FIX }; return true; }
-  if(n == "shl" || n == "shr") { d = { K_FIX, K_SHIFT }; return true; }
+  if(n == "shl" || n == "shr" || n == "shl_i64" || n == "shr_i64") { d = { K_FIX, K_SHIFT }; return true; }
+  if(starts(n, "shl_") || starts(n, "shr_")) { d = { K_FIX, K_CNT63 }; return true; } // narrower / unsigned count types: counts 0..63
+  if(starts(n, "sinit_") || starts(n, "snow_")) { d = { K_IDX256, K_NONE }; return true; }
+  if(n == "a2r_i128") { d = { K_ANGLE, K_I128 }; return true; }
   if(n == "i128_supported") { d = { K_NONE, K_NONE }; return true; }
   if(n == "div_fi128" || n == "diveq_fi128" || n == "add_fi128" || n == "ctor_i128") { d = { K_FIX, K_I128 }; return true; }
   if(n == "add_accum" || n == "sub_accum") { d = { K_FIX, K_COUNT }; return true; }
@@ -134,6 +137,7 @@ const std::vector<int64_t> & boundary(Kind k)
     case K_IDX361: for(int64_t i = 0; i <= 360; ++i) v.push_back(i); break;
     case K_IDX256: for(int64_t i = 0; i <= 255; ++i) v.push_back(i); break;
     case K_COUNT: for(int64_t i = 0; i <= 64; ++i) v.push_back(i); break;
+    case K_CNT63: for(int64_t i = 0; i <= 63; ++i) v.push_back(i); break;
     case K_I128: // (mantissa << 8) | shift
       for(int64_t m : { (int64_t)0, (int64_t)1, (int64_t)-1, (int64_t)2, (int64_t)-2, (int64_t)3, (int64_t)65536, (int64_t)2147483647, (int64_t)-2147483647, (int64_t)2147483648ll, ((int64_t)1 << 54) - 1, -(((int64_t)1 << 54) - 1), (int64_t)1000003 })
         for(int64_t sh : { 0, 1, 16, 31, 32, 33, 47, 62, 63, 64, 65, 70 }) v.push_back(m * 256 + sh);
@@ -178,6 +182,7 @@ int64_t random_of_kind(Rng & r, Kind k)
     case K_IDX361: return r.range(0, 360);
     case K_IDX256: return r.range(0, 255);
     case K_COUNT: return r.range(0, 64);
+    case K_CNT63: return r.range(0, 63);
     case K_I128: return (r.logu(54) * 256) + (int64_t)((r.below(3) == 0) ? 64 + r.below(7) : r.below(71));
     case K_F32: return r.below(2) ? (int64_t)(r.next() & 0xffffffffu) : f2bits((float)((double)r.logu(48) / 65536.0));
     case K_F64: return r.below(2) ? (int64_t)r.next() : d2bits((double)r.logu(62) / 65536.0);
@@ -194,6 +199,7 @@ bool in_domain(Kind k, int64_t x)
     case K_IDX361: return x >= 0 && x <= 360;
     case K_IDX256: return x >= 0 && x <= 255;
     case K_COUNT: return x >= 0 && x <= 64;
+    case K_CNT63: return x >= 0 && x <= 63;
     case K_I128: return (x & 0x7f) <= 70 && (x & 0x80) == 0;
     default: return true;                                    // integral kinds are cast to the type by the wrapper, float kinds are bit patterns
     }
